@@ -219,8 +219,8 @@ def r3(ctx):
                 key = f.get("key", "")
                 if key in ("mahf::state::State::populations", "mahf::state::State::populations_mut"):
                     return popsym
-                if f.get("name") in ("borrow", "borrow_mut", "try_borrow", "try_borrow_mut") and (f.get("gargs") or [""])[0].startswith(POP):
-                    return popsym
+                if f.get("name") in ("borrow", "borrow_mut") and (f.get("gargs") or [""])[0].startswith(POP):
+                    return popsym       # (the try_ forms are derived by the accessor family: Ok of it)
                 return TOP
             from collmodel import coll_oracle, install
             it = install(Interp(fn.body, chain(oracle, StackModel(sf), coll_oracle, std_oracle), [me, Sym("problem"), Sym("state")], facts=F, inline=lambda kk: kk.startswith(PK)))
